@@ -176,6 +176,59 @@ def chain_part(rep):
     rep.set("chain_requests", n)
 
 
+SPACE_ACTIONS = {"weight": [(0.5, -0.25), (0.0, 0.125), (0.0, 0.0)], "nr-contracts": [(2.5, -0.5), (-1.25, 3.0), (1000.0, 0.75), (0.0, 0.0)]}
+
+
+def space_case(si, hold_i, ai):
+    """A request built by an action space (as TradingEnv.step builds it) reaches its target like a hand-built one: weights
+    w x NLV, numbers of contracts exactly (whole lots: truncated toward zero), untargeted holdings closed."""
+    from mcx import spacereq as SR
+    name, space, measure, frac = SR.spaces(0.0)[si]
+    hold = [None, {"A": 10.5, "B": -3.25}][hold_i]
+    a = SPACE_ACTIONS[measure][ai]
+    b = SR.broker(hold)
+    nlv = float(b.net_liquidation_value(False))
+    try:
+        rb = SR.request(space, np.array(a), b)
+        b.rebalance(rb)
+    except Exception as ex:
+        return ["%s: request/rebalance for action %r raised %r" % (name, a, ex)]
+    msgs = []
+    for c, t in zip((SR.A_, SR.B_), a):
+        q = float(b.holdings_quantity.get(c, 0.0))
+        held = (hold or {}).get(c.symbol, 0.0)
+        want = t * nlv / SR.PX[c.symbol][0] if measure == "weight" else t
+        if t == 0:
+            # absent from the target: closed entirely (a liquidation is never truncated away... unless whole lots leave the fraction)
+            if frac and q != 0:
+                msgs.append("%s: %s targeted at 0 but position %r remains" % (name, c.symbol, q))
+            continue
+        if frac:
+            if abs(q - want) > 1e-9 * max(1.0, abs(want)):
+                msgs.append("%s action %r: position in %s is %r, target %r" % (name, a, c.symbol, q, want))
+        else:
+            imb = want - held
+            if abs((q - held) - int(imb)) > 1e-9:
+                msgs.append("%s action %r: whole-lot trade in %s is %r, imbalance %r truncated is %r" % (name, a, c.symbol, q - held, imb, int(imb)))
+    return msgs
+
+
+def space_part(rep):
+    from mcx import spacereq as SR
+    n = 0
+    for si in range(len(SR.spaces(0.0))):
+        measure = SR.spaces(0.0)[si][2]
+        for hold_i in (0, 1):
+            for ai in range(len(SPACE_ACTIONS[measure])):
+                msgs = space_case(si, hold_i, ai)
+                n += 1
+                if msgs:
+                    rep.violation({"part": "space", "space": si, "hold": hold_i, "action": ai}, "; ".join(msgs[:2]), group=("space", si, msgs[0].split(":")[0]))
+    rep.add("transitions", n)
+    rep.add("traces_validated_against_impl", n)
+    rep.set("requests_built_by_action_spaces", n)
+
+
 def _work(unit):
     src, chunk = unit
     universe, fee, quotes, deposit, depth = src[:5]
@@ -229,6 +282,7 @@ def run(tier, **kw):
         for case, msg, group in r["violations"]:
             rep.violation(case, msg, group=group)
     chain_part(rep)
+    space_part(rep)
     rep.set("states", nstates)
     rep.set("bfs_transitions_to_reach_states", bfs_trans)
     rep.set("targets", {"weight": W_TARGETS, "nr-contracts": N_TARGETS})
@@ -246,6 +300,8 @@ def run(tier, **kw):
 def replay(case, **kw):
     if case.get("part") == "chain":
         return chain_case(tuple(case["case"]), case["measure"], case["alloc"])
+    if case.get("part") == "space":
+        return space_case(case["space"], case["hold"], case["action"])
     reset_clock()
     universe, fee = case["universe"], tuple(case["fee"])
     quotes = [tuple(q) for q in case["quotes"]]
